@@ -289,6 +289,7 @@ pub fn witness_kf() -> QCase {
         lastref: 0,
         offset: 0,
         peg: 0,
+        own_price: None,
     };
     QCase {
         pool: vec![IdSpec::FromU64(1), IdSpec::FromU64(2)],
